@@ -307,12 +307,25 @@ func (w *syncQ) Do(a Act) tr.E {
 }
 func (w *syncQ) Obs() tr.E { return tr.E{"len": w.q.Len()} }
 
-type priQ struct{ q *priq.PriQueue }
+// priQ: the action record carries the RANK of the priority (1 = lowest) among the priorities used
+// in the trace; the entry handed to the real queue carries prios[rank-1], any int (64-bit) value.
+// Only the order of priorities matters to the property, and ranks fit TLC's integers.
+type priQ struct {
+	q     *priq.PriQueue
+	prios []int
+}
+
+// NewPri creates a priority queue whose rank r stands for priority prios[r-1] (prios ascending).
+func NewPri(rcap int, prios []int) Queue { return &priQ{priq.NewPriQueue(rcap), prios} }
 
 func (w *priQ) Do(a Act) tr.E {
 	switch a.Op {
 	case "push":
-		err := w.q.Push(&pitem{a.V, a.Pr})
+		pr := a.Pr
+		if w.prios != nil {
+			pr = w.prios[a.Pr-1]
+		}
+		err := w.q.Push(&pitem{a.V, pr})
 		return errReply(err, nil, priq.ErrQueueIsFull)
 	case "pop":
 		e := w.q.Pop()
@@ -351,7 +364,7 @@ func New(kind string, ccap, rcap, rep int) Queue {
 	case "syncq":
 		return &syncQ{syncq.NewSyncQueue(), rep}
 	case "priq":
-		return &priQ{priq.NewPriQueue(rcap)}
+		return &priQ{priq.NewPriQueue(rcap), nil}
 	}
 	tr.Fatal("unknown kind %q", kind)
 	return nil
@@ -394,4 +407,62 @@ func Supports(kind string, a Act) bool {
 		return kind == "priq"
 	}
 	return false
+}
+
+// Model is the harness's own count model of the property (lengths and the closed flag only).  It
+// decides which calls are issued (a Pop only when the property says it returns, how many drain
+// calls) so that generation never depends on what the implementation under test answered.
+type Model struct {
+	Kind       string
+	Ccap, Rcap int
+	Nc, Nr     int
+	Closed     bool
+}
+
+// Len is the number of queued items according to the property.
+func (m *Model) Len() int { return m.Nc + m.Nr }
+
+// PopReturns: a Pop / PopAnyway returns instead of blocking.
+func (m *Model) PopReturns() bool { return m.Closed || m.Len() > 0 }
+
+func (m *Model) take() {
+	if m.Nc > 0 {
+		m.Nc--
+	} else if m.Nr > 0 {
+		m.Nr--
+	}
+}
+
+// Apply advances the model by one call.
+func (m *Model) Apply(a Act) {
+	switch a.Op {
+	case "add":
+		if m.Closed {
+			return
+		}
+		n, c := &m.Nr, m.Rcap
+		if a.Lane == "ctrl" {
+			n, c = &m.Nc, m.Ccap
+		}
+		if !a.Prior && c > 0 && *n >= c {
+			return
+		}
+		*n++
+	case "push":
+		if m.Nr < m.Rcap {
+			m.Nr++
+		}
+	case "pop":
+		if m.Kind == "priq" || a.Any || !m.Closed {
+			m.take()
+		}
+	case "trypop":
+		m.take()
+	case "close":
+		m.Closed = true
+	case "tryclose":
+		if m.Len() == 0 {
+			m.Closed = true
+		}
+	}
 }
